@@ -353,7 +353,11 @@ func (e *env) run(bin string, job harness.Job) []*harness.Output {
 		of := fmt.Sprintf("%s.out%d.json", bin, i)
 		b, _ := json.Marshal(j)
 		_ = os.WriteFile(jf, b, 0o644)
-		r := drv.Run(e.scratch, 6*time.Hour, []string{"GOMAXPROCS=2"}, bin, jf, of)
+		gmp := "GOMAXPROCS=2"
+		if v := os.Getenv("VERIF_BATCH_GOMAXPROCS"); v != "" {
+			gmp = "GOMAXPROCS=" + v
+		}
+		r := drv.Run(e.scratch, 6*time.Hour, []string{gmp}, bin, jf, of)
 		data, rerr := os.ReadFile(of)
 		if rerr != nil {
 			fails[i] = fmt.Sprintf("shard %d produced no output: %v\n%s", i, r.Err, firstLines(string(r.Out), 30))
